@@ -2,6 +2,7 @@
 //! One sub-command per property; all randomness from one SplitMix64 seeded by --seed.
 mod c05;
 mod c06;
+mod c07;
 mod c11;
 mod c13;
 mod c15;
@@ -42,6 +43,7 @@ fn main() {
         "c11" => c11::run(&opts),
         "c05" => c05::run(&opts),
         "c06" => c06::run(&opts),
+        "c07" => c07::run(&opts),
         other => {
             eprintln!("unknown command {other}");
             2
